@@ -114,7 +114,7 @@ pub fn eval_node(n: &LA, env: &HashMap<Slot, u32>, redundant: &dyn Fn(Slot) -> u
     };
     Some(match n {
         LA::Num(c) => c % p,
-        LA::Cst(c) => cst_value(*c, p),
+        LA::Cst(c) => cst_value((-(*c) - 1) as u32, p),
         LA::Var(s) => get(*s, &[]),
         LA::Add(a, b) => (child(a, &[])? + child(b, &[])?) % p,
         LA::Mul(a, b) => (child(a, &[])? * child(b, &[])?) % p,
